@@ -25,14 +25,16 @@ import (
 // C07 — parallel full sync restores every key exactly once into the right database.
 
 type fullCase struct {
-	file    []byte
-	recs    []rc.Record
-	f       FilterCfg
-	slots   []int // full-sync slot filter (nil = none)
-	policy  string
-	planted map[string]*rc.Value // "db/key" -> pre-existing value
-	failKey string               // key whose restore the target answers with an injected error ("" = none)
-	failMsg string
+	file      []byte
+	recs      []rc.Record
+	f         FilterCfg
+	slots     []int // full-sync slot filter (nil = none)
+	policy    string
+	planted   map[string]*rc.Value // "db/key" -> pre-existing value
+	failKey   string               // key whose restore the target answers with an injected error ("" = none)
+	failNth   int                  // which restoring command for failKey gets the error (1 = the first, 2 = the retry after DEL)
+	noReplace bool                 // the target is configured as not supporting RESTORE ... REPLACE (rewrite = DEL + RESTORE)
+	failMsg   string
 }
 
 // expectedFull computes which (db,key) the target must hold after a successful full phase.
@@ -112,6 +114,7 @@ func genFullCase(c *core.Ctx, maxKeys int) *fullCase {
 	}
 	fc.f.FilterLua = t.Choose(4) == 3
 	fc.policy = []string{"none", "rewrite", "ignore"}[t.Choose(3)]
+	fc.noReplace = t.Choose(4) == 3
 	return fc
 }
 
@@ -122,7 +125,7 @@ func (fc *fullCase) applyConf() {
 	conf.Options.TargetDB = fc.f.TargetDB
 	conf.Options.KeyExists = fc.policy
 	conf.Options.TargetVersion = "5.0.7"
-	conf.Options.TargetReplace = true
+	conf.Options.TargetReplace = !fc.noReplace
 	var ss []string
 	for _, s := range fc.slots {
 		ss = append(ss, strconv.Itoa(s))
@@ -242,7 +245,7 @@ func injectFailure(c *core.Ctx, fc *fullCase, tgt *modelredis.Server) {
 	if t.Choose(5) != 4 {
 		return
 	}
-	var cands []string
+	var cands, retryCands []string
 	for _, r := range fc.recs {
 		if !r.Lua && fc.f.dbPasses(int(r.DB)) && fc.f.KeyPasses(r.Key) {
 			db := int(r.DB)
@@ -250,20 +253,36 @@ func injectFailure(c *core.Ctx, fc *fullCase, tgt *modelredis.Server) {
 				db = fc.f.TargetDB
 			}
 			if _, pre := fc.planted[fmt.Sprintf("%d/%s", db, r.Key)]; pre {
-				continue // the key_exists policy already decides about this key
+				if fc.policy == "rewrite" && fc.noReplace {
+					// rewrite without REPLACE: BUSYKEY, DEL, RESTORE again - the error can hit that second RESTORE
+					retryCands = append(retryCands, string(r.Key))
+				}
+				continue // otherwise the key_exists policy already decides about this key
 			}
 			cands = append(cands, string(r.Key))
 		}
+	}
+	fc.failNth = 1
+	if len(retryCands) > 0 && t.Choose(2) == 1 {
+		cands, fc.failNth = retryCands, 2
 	}
 	if len(cands) == 0 {
 		return
 	}
 	fc.failKey = cands[t.Choose(len(cands))]
 	fc.failMsg = []string{"OOM command not allowed when used memory > 'maxmemory'.", "ERR DUMP payload version or checksum are wrong", "LOADING Redis is loading the dataset in memory"}[t.Choose(3)]
+	seen := 0
 	tgt.Fail = func(conn, db int, args [][]byte) string {
 		n := strings.ToLower(string(args[0]))
 		if (n == "restore" || n == "rpush" || n == "hset" || n == "sadd" || n == "zadd" || n == "set") && len(args) > 1 && string(args[1]) == fc.failKey {
+			seen++
+			if seen < fc.failNth {
+				return "" // the first attempt is answered normally (BUSYKEY for the existing key)
+			}
 			c.Fault("target_error_reply")
+			if fc.failNth == 2 {
+				c.Probe("error_on_second_restore")
+			}
 			return fc.failMsg
 		}
 		return ""
@@ -564,7 +583,7 @@ func init() {
 			"a failing run may end by abort, by retry-until-give-up, or by never signalling completion; only 'completion signalled although a restore failed' is a violation",
 		},
 		RealVsStub: "real: dbSync.syncRDBFile + restore workers, run.CmdRestore (real input file), utils.NewRDBLoader/RestoreRdbEntry, filter, redigo; simulated: TCP, target model with injected error replies, master model, clock, scheduling, process exit",
-		ProbeNames: []string{"parallel_gt1", "target_db", "failure_reported", "conn_reset_reported", "conn_reset_full_phase_redone", "several_inputs_at_once"},
+		ProbeNames: []string{"parallel_gt1", "target_db", "failure_reported", "conn_reset_reported", "conn_reset_full_phase_redone", "several_inputs_at_once", "error_on_second_restore"},
 		FaultNames: []string{"target_error_reply", "conn_cut", "io_stall", "latency", "segment_split"},
 	})
 }
